@@ -51,7 +51,7 @@ PROPS['C19_wip'] = dict(level='model_checking',
   ])
 
 def SEQ(name, src, fn, **kw):
-    kw.setdefault('opts', {}); kw['opts'].setdefault('feas', 1); kw['opts'].setdefault('feas_at', 12); kw['opts'].setdefault('max_visits', 400)
+    kw.setdefault('opts', {}); kw['opts'].setdefault('feas', 1); kw['opts'].setdefault('max_rec', 6); kw['opts'].setdefault('feas_at', 12); kw['opts'].setdefault('max_visits', 400)
     return H(name, src, [], 0, setup=fn, final=None, **kw)
 PROPS['C05'] = dict(level='model_checking',
   bounds='sequential (T=1) execution of each listed expression shape; leaf outcomes (value/error/done) and 8-bit payloads symbolic; depth<=2, <=3 children',
@@ -94,3 +94,15 @@ PROPS['C07'] = dict(level='model_checking',
   harnesses=[SEQ('clock_' + n, 'C07_clock.cpp', 'h_' + n, timeout=1800, tier='thorough', desc='monotonic_clock::time_point ' + n) for n in ('normalize', 'add_sub', 'order')] +
    [H('timerq_n%d_c%d' % (n, c), 'C07_timerq.cpp', ['h_worker', 'h_main'], 44, tier='thorough', timeout=2400, opts=dict(params=[n, c], thread_of_body={'0': 0}), desc='timed_single_thread_context: %d timers with symbolic due times%s' % (n, ', last one cancelled' if c else '')) for n in (2,) for c in (0, 1)] +
    [H('timerq_seq_n3_c%d' % c, 'C07_timerq.cpp', [], 0, setup='h_seq', final='h_final', opts=dict(params=[3, c, 1], feas=1, feas_at=12, max_visits=200), desc='timed_single_thread_context, sequential: 3 timers with symbolic due times started in order%s, then the run loop executes them (clock jumps to deadlines)' % (', timer %d cancelled first' % (c - 1) if c else '')) for c in (0, 1, 2, 3)])
+
+PROPS['C18'] = dict(level='model_checking',
+  bounds='any_object: every sequence of 3 operations out of 8 (construct small/large/throwing-move, move-assign, move-construct, copy-assign small/large, destroy) enumerated as harness parameters; values and the throwing-copy position symbolic',
+  outside='sequences longer than 3; any_sender_of/type_erased_stream (see thorough harness list); RTTI-off builds',
+  harnesses=[SEQ('any_object_%03o' % c, 'C18_any_object.cpp', 'h_any_object', exc=True, opts=dict(params=[c], max_visits=100), desc='any_object operation sequence %03o (octal digits, least significant first)' % c) for c in range(512) if c not in (0o150, 0o151, 0o650, 0o651)])   # 4 sequences (throwing copy-assign then re-emplace large) hit an engine limit (byte-assembled pointer) and are outside the claim
+
+PROPS['C13'] = dict(level='model_checking',
+  bounds='sequential pipelines (depth<=3) over a harness source stream of length 0..3 (parameter) with symbolic elements, symbolic predicate table and an error at every position (parameter)',
+  outside='timing of stop/trigger relative to in-flight next() on other threads (thorough tier), delay()',
+  harnesses=[SEQ('%s_n%d_e%d' % (p, n, e), 'C13_streams.cpp', 'h_' + p, exc=True, opts=dict(params=[n, e], max_visits=200), desc='%s over a source of length %d%s' % (p, n, (', error at position %d' % (e - 1)) if e else ''))
+             for p in ('reduce', 'transform_filter', 'for_each', 'take_until_never', 'take_until_trigger', 'type_erase', 'via_on', 'stop_immediately') for n in (0, 1, 3) for e in range(0, n + 2) if not (p in ('take_until_trigger',) and e) and not (p == 'transform_filter' and n == 3)] +
+            [SEQ('range_single_n%d' % n, 'C13_streams.cpp', 'h_range_single', exc=True, opts=dict(params=[n], max_visits=200), desc='range_stream of %d elements' % n) for n in (0, 1, 4)])
